@@ -97,6 +97,10 @@ def op_rep_len_bytes_l(n): return len(b"ab" * n)
 def op_rep_len_bytes_r(n): return len(n * b"ab")
 def op_rep_len_list_l(n): return len(["a", "b"] * n)
 def op_rep_len_list_r(n): return len(n * ["a", "b"])
+def op_enumerate_elems(s): return list(enumerate("abc".elems(), s))
+def op_enumerate_codepoints(s): return list(enumerate("abc".codepoints(), s))
+def op_enumerate_dict(s): return list(enumerate({"a": 1, "b": 2, "c": 3}, s))
+def op_enumerate_tuple(s): return list(enumerate(("a", "b", "c"), s))
 def op_rep_len_tuple_l(n): return len(("a", "b") * n)
 def op_rep_len_tuple_r(n): return len(n * ("a", "b"))
 def op_rep_val_str_l(n): return "ab" * n
@@ -231,6 +235,14 @@ func (e *evaluator) eval(op string, args []string) (res string, val starlark.Val
 			val = nil
 		}
 	}()
+	if op == "lit2" {
+		// two literals in one source text: the scanner must not carry anything from one to the next
+		v, err := starlark.EvalOptions(&syntax.FileOptions{}, e.th, "lit2", "["+args[0][1:]+", "+args[1][1:]+"]", nil)
+		if err != nil {
+			return "E", nil
+		}
+		return render(v), v
+	}
 	if op == "lit" {
 		v, err := starlark.EvalOptions(&syntax.FileOptions{}, e.th, "lit", args[0][1:], nil)
 		if err != nil {
@@ -461,7 +473,7 @@ func caseKey(op string, args []string, exp, res string) string {
 	}
 	for _, a := range rest {
 		cl := classTok(a)
-		if isRange || op == "round" || op == "enumerate" {
+		if isRange || op == "round" || strings.HasPrefix(op, "enumerate") {
 			cl = unsigned(cl)
 			if op == "range_in" && cl == "float-integral" {
 				b, _ := strconv.ParseUint(a[1:], 16, 64)
@@ -470,7 +482,7 @@ func caseKey(op string, args []string, exp, res string) string {
 				}
 			}
 		}
-		if op == "lit" {
+		if op == "lit" || op == "lit2" {
 			t := strings.TrimLeft(a[1:], "-")
 			switch {
 			case strings.ContainsAny(t, ".") || (strings.ContainsAny(t, "eE") && !strings.HasPrefix(t, "0x") && !strings.HasPrefix(t, "0X")):
